@@ -9,7 +9,9 @@
 (*         of c with id's own key, or the server itself issued id on c), ok (server's answer), *)
 (*         srv (who the server now says c is)                                                  *)
 (*  Cmd:   c, ty (policy row), pt, claims ("absent" | "own" | "victim": SenderId / ReceiverId / *)
-(*         Token of the packet), obj, hc, out ("ok": a success response, "fail": a failure      *)
+(*         Token of the packet), bf ("absent" | "own" | "third" | "victim": client-id fields     *)
+(*         inside the JSON body), wv (state of the named objects: base / expired / revoked /     *)
+(*         inactive), objt (target client the named mapping designates, else "none"), obj, hc, out ("ok": a success response, "fail": a failure      *)
 (*         response or an error from the dispatcher, "none": nothing came back),               *)
 (*         objp / objo (parties and listen-client / owner of the named object before the       *)
 (*         command; empty / "none" when there is none),                                         *)
@@ -71,9 +73,14 @@ Judge(e) ==
                  \cup If(row.cls \in {"own", "bearer"} /\ \E p \in others : p.to \notin touched, V("NotParty", D("delivered:stranger")))
                  \cup If(\E p \in dels : p.snd \notin {None, X}, V("EffId", D("sender")))
             ELSE {}
-      \* ---- identity fields inside the packet have no effect
-      vC == If(need /\ e.claims # "absent" /\ "ref" \in DOMAIN e /\ e.sum # e.ref, V("ClaimsMatter", D(e.claims)))
-  IN vU \cup vP \cup vC
+      \* ---- identity fields inside the packet (envelope or body) have no effect: same outcome as the twin run
+      \* without them; in particular a packet relayed through a mapping goes to the client the mapping
+      \* designates, whatever id the body carries
+      vC == If(need /\ (e.claims # "absent" \/ e.bf # "absent") /\ "ref" \in DOMAIN e /\ e.sum # e.ref,
+               V("ClaimsMatter", D("env=" \o e.claims \o ":body=" \o e.bf)))
+      vR == If(need /\ row.cls = "obj" /\ row.party = "listen" /\ \E p \in dels : p.to # e.objt,
+               V("Redirected", D("body=" \o e.bf)))
+  IN vU \cup vP \cup vC \cup vR
 
 TrCmd == /\ Is("Cmd")
          /\ viol' = viol \cup Judge(Ev)
